@@ -1,5 +1,6 @@
 from specs import KEYS, CHECKS, unit
 
+# shared with spec_c14_e2e.py (same harness binary: harness/dispatchcloud_c14)
 KEYS.setdefault('dispatchcloud_c14', {
     'pkg': 'lib/dispatchcloud',
     'hooks': {'lib/dispatchcloud/test/verif_hooks.go': 'harness/dispatchcloud_c14/hooks/test_verif_hooks.go'},
@@ -8,12 +9,32 @@ KEYS.setdefault('dispatchcloud_c14', {
 CHECKS['C15'] = {
     'ready': False,
     'level': 'exploration',
-    'rule': 'PRNG-generated end-to-end scenarios',
-    'assumptions': [],
+    'rule': 'PRNG-generated (seeded from the shard seed) end-to-end scenarios run against the real dispatcher.run()+scheduler+'
+            'worker.Pool+sshexecutor over loopback SSH to test.StubDriver VMs and test.Queue: 20-120 (quick) / 20-500 (thorough) '
+            'containers with tied priorities incl. 0, per-VM fault plans by creation order (never boots, slow boot, broken-after, '
+            'crunch-run missing, report-broken, crash/arv-mount-deadlock rates, detach delay), destroy error rate, create/list rate '
+            'limits, quota errors, API-side cancels and priority changes, hung and unkillable processes, management-API '
+            'hold/drain/run, 0-2 dispatcher restarts (plus one after each quota error). Premise: VMs created after the generated '
+            'plan list are healthy. A case is non-trivial if it contained a dispatcher restart, or a VM that never boots was '
+            'created, or a crunch-run crashed after setting state Running; distinct = distinct scenario seed. '
+            'Verdict: VIOLATION only if container states, instance set and process tables are all unchanged for >=10 s '
+            '(stretched to 5x the fault-free 50-container run time on a busy machine) while the scheduler keeps reading the queue; '
+            'still changing at D=max(60 s, 100x fault-free time) is reported as inconclusive (exit 2).',
+    'assumptions': [
+        'test.StubDriver/test.StubVM/test.Queue stand in for the cloud, the VMs and the API server; the real container.Queue (API client) is not exercised',
+        'bounded liveness only: convergence within D on sampled fault schedules, no claim about unbounded "eventually"',
+        'premise: destroy error rate <=0.6, VMs created after the fault-plan list are healthy (crash/deadlock rate <=0.1), every hung/unkillable process belongs to a container that is cancelled or put on hold through the API',
+        'a quota error is followed by a dispatcher restart, except in at most one "slow" scenario per thorough shard that waits out worker.Pool\'s hard-coded 60 s quotaErrorTTL (no progress is demanded during that minute)',
+        'a restart is simulated as process death: commands, cloud calls and queue writes of the old generation are cut off at the moment of death (generation-tagged crunch-run path)',
+        'unsatisfiable containers are not generated (test.Queue has no handling for them); operator "hold" is not combined with unkillable processes (the pool does not drain a held instance after giving up on a process, also not after the hold is released - recorded in notes/C15.md)',
+        'a dispatcher panic on any goroutine is reported as a violation (crash_is_violation); harness callbacks on foreign goroutines recover their own panics and report them as infrastructure errors',
+    ],
+    'level_note': 'wall-clock readings decide nothing except the stuck rule (>=10 s, i.e. >=66x the largest configured dispatcher timeout of 150 ms) and the inconclusive deadline',
+    'technique': 'randomized end-to-end fault injection with an event-recording monitor; scenario JSON + event history + dispatcher log are the replay artifact (replayed up to 5 times)',
     'units': [
         unit('live', 'dispatchcloud_c14', '^TestVerifC15Liveness$',
-             {'shards': 10, 'timeout': 400, 'env': {'VERIF_SCENARIOS': 2, 'VERIF_MAXN': 120}},
-             {'shards': 16, 'timeout': 1500, 'env': {'VERIF_SCENARIOS': 30, 'VERIF_MAXN': 500, 'VERIF_SLOWQUOTA': 1}},
+             {'shards': 10, 'timeout': 500, 'env': {'VERIF_SCENARIOS': 2, 'VERIF_MAXN': 120}},
+             {'shards': 16, 'timeout': 1700, 'env': {'VERIF_SCENARIOS': 30, 'VERIF_MAXN': 500, 'VERIF_SLOWQUOTA': 1}},
              rapid=False, crash_is_violation=True),
     ],
 }
